@@ -702,9 +702,9 @@ def main(ck):
         for c in mcases:
             c["val"] = tuple(c["val"])
     else:
-        cases = enumerated(ck.tier) + enumerated_c(ck.tier, rng) + enumerated_nest(ck.tier, rng) + enumerated_slot() + seeded(rng, 1500 if ck.tier == "quick" else 30000)
+        cases = enumerated(ck.tier) + enumerated_c(ck.tier, rng) + enumerated_nest(ck.tier, rng) + enumerated_slot() + seeded(rng, 1100 if ck.tier == "quick" else 30000)
         mcases = member_cases()
-        groups = conc_groups(rng, 60 if ck.tier == "quick" else 1500)
+        groups = conc_groups(rng, 45 if ck.tier == "quick" else 1500)
 
     srcs = [script(c["tbl"], c["ops"], c.get("factory", False)) for c in cases] + [c["src"] for c in mcases]
     outs, rc, err = run_impl(binary, srcs)
